@@ -50,8 +50,13 @@ CheckCase(c) ==
          /\ Verdict(id, "float", c.flt = c.value)
          /\ Verdict(id, "lt", c.lt = RLt(c.value, c.x)) /\ Verdict(id, "le", c.le = RLe(c.value, c.x))
          /\ Verdict(id, "gt", c.gt = RLt(c.x, c.value)) /\ Verdict(id, "ge", c.ge = RLe(c.x, c.value))
-         /\ \A k \in DOMAIN c.zw : Verdict(id, "zero-within-n-sigma",
-                                           c.zw[k].res = (c.iszero \/ RLe(RAbs(c.value), RMul(c.zw[k].sigma, c.dvalue))))
+         /\ \A k \in DOMAIN c.zw :
+              LET want == RLe(RAbs(c.value), RMul(c.zw[k].sigma, c.dvalue)) IN
+              IF c.zw[k].res = want THEN TRUE
+              \* named deviation (recorded finding): the shortcut through is_zero() and its absolute tolerance of 1e-10
+              ELSE IF c.zw[k].res /\ c.iszero /\ RLt(RAbs(c.value), "1/10000000000")
+                   THEN Known(id, "is_zero_within_error counts an observable whose value and fluctuations are all below 1e-10 as zero, however many standard errors away it is")
+              ELSE Verdict(id, "zero-within-n-sigma", FALSE)
     [] c.ev = "plottable" ->
          /\ Verdict(id, "plottable.x", c.xs = c.defined)
          /\ Verdict(id, "plottable.y", c.ys = c.values)
